@@ -14,7 +14,12 @@ func readArray(ctx context.Context, read stdio.Io, callback func([]byte)) error 
 	}
 
 	cb := func(b []byte) {
-		callback(b)
+		select {
+		case <-ctx.Done():
+			return
+		default:
+			callback(b)
+		}
 	}
 
 	return parse(b, cb)
